@@ -127,6 +127,30 @@ func Generate(r *vc.Rand, id string, o Opts) *spec.Spec {
 	for i := 0; i < nsvc; i++ {
 		x.genService(i, svcUsed)
 	}
+	// a single-file server is a GET route: drop the ones whose full path is also served by a GET or HEAD endpoint of
+	// ANY service (two handlers for one verb and path make the design ambiguous; goa does not detect it)
+	gets := map[string]bool{}
+	for _, sv := range s.Services {
+		for _, m := range sv.Methods {
+			if m.HTTP == nil {
+				continue
+			}
+			for _, r := range m.HTTP.Routes {
+				if r.Verb == "GET" || r.Verb == "HEAD" {
+					gets[s.API.BasePath+sv.BasePath+r.Path] = true
+				}
+			}
+		}
+	}
+	for _, sv := range s.Services {
+		kept := sv.Files[:0]
+		for _, f := range sv.Files {
+			if !gets[s.API.BasePath+sv.BasePath+f.Path] {
+				kept = append(kept, f)
+			}
+		}
+		sv.Files = kept
+	}
 	return s
 }
 
